@@ -491,6 +491,9 @@ func (w *World) CheckKids(tx *bbolt.Tx, m *Model) error {
 				if has && k.Extra != extra {
 					return fmt.Errorf("child store %s entity %q: extra %q, model %q", name, id, k.Extra, extra)
 				}
+				if !has && (k.Extra != "" || fresh.Extra != "") {
+					return fmt.Errorf("child store %s (extended) entity %q has no child data but is read with the child-only field %q / %q", name, id, k.Extra, fresh.Extra)
+				}
 			}
 			if ks.IsEntityPresent(tx, id) != has {
 				return fmt.Errorf("child store %s: IsEntityPresent(%q) = %v, model %v", name, id, !has, has)
